@@ -1,5 +1,224 @@
 package main
 
-import "github.com/kercylan98/vivid/xverif/lib"
+// The kernel-checked witness executions of coq/Properties/C18.v (wa_play .. we_play of coq/Cluster/Gossip.v), replayed
+// on the REAL NodeActors with the same canonical round driver.  For each witness two cases are emitted:
+//   ( ( 3e8 i ) )  ->  the schedule that was executed here: the model prints its witness schedule i, so the two
+//                      must be the same steps (same order, same clocks, same Ask outcomes, same MemberByAddress picks);
+//   the schedule   ->  events, packets and node states per step (lock-step, as for every scenario).
+// The property monitors run on them like on any scenario: they DO fire on the unchanged tree - these are the recorded
+// defects (a)-(e) - and each witness additionally checks that its defect still shows on the implementation
+// (a witness that stops failing is reported: the model would no longer describe the code).  Witness 6 is (c2).
 
-func witnesses(o *lib.Out) {}
+import (
+	"fmt"
+	"time"
+
+	"github.com/kercylan98/vivid/internal/cluster"
+	"github.com/kercylan98/vivid/xverif/lib"
+)
+
+const (
+	ad1 = "127.0.0.1:1"
+	ad2 = "127.0.0.1:2"
+	ad3 = "127.0.0.1:3"
+)
+
+type wit struct {
+	s       *Sim
+	name    string
+	idx     int
+	ffStart int64
+	rounds  int
+	D       int64
+}
+
+func (w *wit) roundsAt(n int, t0 int64) bool {
+	for i := 0; i < n; i++ {
+		if !autoRound(w.s, t0+int64(i)*w.D) {
+			return false
+		}
+	}
+	return true
+}
+
+// finish: emits the two cases, runs the end-state monitors, and checks `still` (the defect still reproduces).
+func (w *wit) finish(o *lib.Out, ok bool, still func() (bool, string)) {
+	s := w.s
+	in, out := s.Case()
+	o.Case("witness-schedule", true, lib.L(lib.L(lib.N(1000), lib.NI(w.idx))), in)
+	o.Case("witness-"+w.name, true, in, out)
+	o.Stats["steps"] += len(s.steps)
+	var hits []hit
+	if !ok {
+		hits = append(hits, hit{"harness:network-does-not-drain", "unexplained: witness " + w.name})
+	}
+	hits = append(hits, s.hist.hits...)
+	tail := w.ffStart + int64(w.rounds)*w.D*2/3
+	for _, d := range s.hist.endState(EndCfg{w.D, 1, tail}) {
+		hits = append(hits, hit{d.monitor, d.cause + ": " + d.text})
+	}
+	for _, b := range s.bad {
+		hits = append(hits, hit{"harness:unexpected-call", "unexplained: " + b})
+	}
+	rep, what := still()
+	o.Info["witness_"+w.name+"_reproduces_on_the_implementation"] = rep
+	o.Info["witness_"+w.name+"_observed"] = what
+	if !rep {
+		hits = append(hits, hit{"witness-no-longer-fails", "unexplained: the execution of C18 witness (" + w.name + ") no longer shows its defect on the implementation: " + what})
+	}
+	for _, h := range collapse("witness-"+w.name, hits) {
+		record(o, lib.L(lib.S("witness"), lib.NI(w.idx)), h)
+	}
+}
+
+func members(n *SNode) map[string]*cluster.NodeState { return n.actor.XVView().Members }
+
+func witnesses(o *lib.Out) {
+	ns := func(d int64) time.Duration { return time.Duration(d) }
+
+	// (a) two healthy nodes, timeout 300, 40 rounds of length 50
+	{
+		s := NewSim()
+		w := &wit{s: s, name: "a", idx: 1, ffStart: 1050, rounds: 40, D: 50}
+		s.now = 1000
+		s.Start(Cfg{ID: "s", Addr: ad1, Seeds: []string{ad1}, FD: ns(300)})
+		s.now = 1010
+		s.Start(Cfg{ID: "j", Addr: ad2, Seeds: []string{ad1}, FD: ns(300)})
+		s.hist.ffSince = 1050
+		ok := w.roundsAt(40, 1050)
+		w.finish(o, ok, func() (bool, string) {
+			n := 0
+			for _, c := range s.hist.changeEv {
+				if c.kind == 0 && c.at >= 1050+30*50 {
+					n++
+				}
+			}
+			_, sHasJ := members(s.nodes[ad1])["j"]
+			return n > 0 && !sHasJ, fmt.Sprintf("%d ClusterMembersChangedEvents in rounds 31..40; after round 40 the seed lists the joiner: %v", n, sHasJ)
+		})
+	}
+	// (b) failure detection off: s, a, x converge; x crashes; ForceMemberDown(x) at s; 30 rounds
+	{
+		s := NewSim()
+		w := &wit{s: s, name: "b", idx: 2, ffStart: 1250, rounds: 30, D: 50}
+		s.now = 1000
+		s.Start(Cfg{ID: "s", Addr: ad1, Seeds: []string{ad1, ad2}})
+		s.now = 1010
+		s.Start(Cfg{ID: "a", Addr: ad2, Seeds: []string{ad1, ad2}})
+		s.now = 1020
+		s.Start(Cfg{ID: "x", Addr: ad3, Seeds: []string{ad1}})
+		ok := w.roundsAt(3, 1050)
+		s.now = 1200
+		s.Crash(ad3)
+		s.now = 1210
+		s.ForceDown(ad1, "x")
+		_, had := members(s.nodes[ad1])["x"]
+		s.hist.ffSince = 1250
+		ok = w.roundsAt(30, 1250) && ok
+		w.finish(o, ok, func() (bool, string) {
+			_, sx := members(s.nodes[ad1])["x"]
+			_, ax := members(s.nodes[ad2])["x"]
+			return !had && sx && ax, fmt.Sprintf("x listed by s right after ForceMemberDown: %v; 30 rounds later listed by s: %v, by a: %v", had, sx, ax)
+		})
+	}
+	// (c) the two nodes of (a) with SuspectConfirmDuration 100000
+	{
+		s := NewSim()
+		w := &wit{s: s, name: "c", idx: 3, ffStart: 1050, rounds: 40, D: 50}
+		s.now = 1000
+		s.Start(Cfg{ID: "s", Addr: ad1, Seeds: []string{ad1}, FD: ns(300), Confirm: ns(100000)})
+		s.now = 1010
+		s.Start(Cfg{ID: "j", Addr: ad2, Seeds: []string{ad1}, FD: ns(300), Confirm: ns(100000)})
+		s.hist.ffSince = 1050
+		ok := w.roundsAt(40, 1050)
+		w.finish(o, ok, func() (bool, string) {
+			l1 := cluster.ComputeLeaderAddr(s.nodes[ad1].actor.XVView())
+			l2 := cluster.ComputeLeaderAddr(s.nodes[ad2].actor.XVView())
+			return l1 == ad1 && l2 == ad2, fmt.Sprintf("leader computed by %s: %q, by %s: %q", ad1, l1, ad2, l2)
+		})
+	}
+	// (d) failure detection off: j (the smaller address) joins the seed s, both converge, j leaves; 30 rounds
+	{
+		s := NewSim()
+		w := &wit{s: s, name: "d", idx: 4, ffStart: 1250, rounds: 30, D: 50}
+		s.now = 1000
+		s.Start(Cfg{ID: "s", Addr: ad2, Seeds: []string{ad2}})
+		s.now = 1010
+		s.Start(Cfg{ID: "j", Addr: ad1, Seeds: []string{ad2}})
+		ok := w.roundsAt(3, 1050)
+		s.now = 1200
+		s.Leave(ad1)
+		s.hist.ffSince = 1250
+		ok = w.roundsAt(30, 1250) && ok
+		w.finish(o, ok, func() (bool, string) {
+			_, sj := members(s.nodes[ad2])["j"]
+			l := cluster.ComputeLeaderAddr(s.nodes[ad2].actor.XVView())
+			return sj && l == ad1, fmt.Sprintf("30 rounds after the leave the seed lists j: %v and computes the leader %q; %s", sj, l, fmt.Sprint(s.hist.leaveNotes))
+		})
+	}
+	// (e) failure detection off, seeds s1 and s2: j joins through s1 while s2 is cut off, crashes, restarts under the
+	// same NodeID configured with s2 and joins through it; 30 rounds
+	{
+		s := NewSim()
+		w := &wit{s: s, name: "e", idx: 5, ffStart: 1150, rounds: 30, D: 50}
+		s.now = 1000
+		s.Start(Cfg{ID: "s1", Addr: ad1, Seeds: []string{ad1, ad2}})
+		s.now = 1005
+		s.Start(Cfg{ID: "s2", Addr: ad2, Seeds: []string{ad1, ad2}})
+		s.now = 1010
+		s.Drop(0)
+		s.Drop(0)
+		s.now = 1020
+		s.Start(Cfg{ID: "j", Addr: ad3, Seeds: []string{ad1}})
+		s.now = 1030
+		s.Drop(0)
+		s.Drop(0)
+		s.Deliver(0)
+		s.Drop(0)
+		s.now = 1040
+		s.Crash(ad3)
+		s.now = 1100
+		s.Start(Cfg{ID: "j", Addr: ad3, Seeds: []string{ad2}})
+		s.hist.ffSince = 1150
+		ok := w.roundsAt(30, 1150)
+		w.finish(o, ok, func() (bool, string) {
+			e1 := members(s.nodes[ad1])["j"]
+			own := s.nodes[ad3].actor.XVSelf()
+			if e1 == nil {
+				return false, "s1 does not list j"
+			}
+			return e1.Generation == own.Generation && e1.LogicalClock == own.LogicalClock && e1.Timestamp != own.Timestamp,
+				fmt.Sprintf("s1 holds j at (%d,%d) timestamp %d; the running j is at (%d,%d) timestamp %d", e1.Generation, e1.LogicalClock, e1.Timestamp, own.Generation, own.LogicalClock, own.Timestamp)
+		})
+	}
+	// (c2) failure detection off: j joins s, crashes, restarts under the same NodeID and joins s again; the broadcast of s
+	// reaches j, the one GossipMessage carrying the new incarnation to s is lost; 30 rounds
+	{
+		s := NewSim()
+		w := &wit{s: s, name: "c2", idx: 6, ffStart: 1250, rounds: 30, D: 50}
+		s.now = 1000
+		s.Start(Cfg{ID: "s", Addr: ad1, Seeds: []string{ad1}})
+		s.now = 1010
+		s.Start(Cfg{ID: "j", Addr: ad2, Seeds: []string{ad1}})
+		ok := w.roundsAt(2, 1050)
+		s.now = 1200
+		s.Crash(ad2)
+		s.now = 1210
+		s.Start(Cfg{ID: "j", Addr: ad2, Seeds: []string{ad1}})
+		s.now = 1220
+		s.Deliver(0)
+		s.Drop(0)
+		s.hist.ffSince = 1250
+		ok = w.roundsAt(30, 1250) && ok
+		w.finish(o, ok, func() (bool, string) {
+			e := members(s.nodes[ad1])["j"]
+			own := s.nodes[ad2].actor.XVSelf()
+			if e == nil {
+				return false, "s does not list j"
+			}
+			return e.Generation == 2 && own.Generation == 3 && vvString(cluster.XVDump(s.nodes[ad1].actor.XVView().VersionVector)) == vvString(cluster.XVDump(s.nodes[ad2].actor.XVView().VersionVector)),
+				fmt.Sprintf("s holds j at (%d,%d), the running j is at (%d,%d); vector of s: %s, of j: %s", e.Generation, e.LogicalClock, own.Generation, own.LogicalClock,
+					vvString(cluster.XVDump(s.nodes[ad1].actor.XVView().VersionVector)), vvString(cluster.XVDump(s.nodes[ad2].actor.XVView().VersionVector)))
+		})
+	}
+}
